@@ -86,6 +86,12 @@ def short_desc(t, depth=0):
     return k
 
 
+def _blank_locals(desc):
+    """operand description with plain identifiers (local names) replaced by `_`; `self.x`, literals and call names are kept"""
+    import re as _re
+    return _re.sub(r'(?<![A-Za-z0-9_.:])([a-z_][a-z0-9_]*)(?![A-Za-z0-9_(.:])', lambda mm: mm.group(1) if mm.group(1) in ('self',) else '_', desc)
+
+
 def _is_zero(t):
     return t[0] == 'const' and isinstance(t[2], float) and t[2] == 0.0
 
@@ -252,6 +258,11 @@ def s16_nan_sources(ctx):
     facts = instance_float_int_facts(ctx)
     classes = {}
     used = set()
+    table_file = {}
+    for (tfn, tkind, tdesc) in NAN_TABLE:
+        gbj = f.generic_body(tfn) or next((bj_ for bj_ in f.bodies.values() if bj_['def'] == tfn), None)
+        if gbj is not None:
+            table_file[tfn] = gbj['file']
     n = 0
     seen_sites = set()
     for bid, bj in sorted(f.bodies.items()):
@@ -348,6 +359,13 @@ def s16_nan_sources(ctx):
             if cls is None:
                 tk = (bj['def'], kind, desc)
                 ent = NAN_TABLE.get(tk)
+                if not ent:
+                    # the same computation moved into a helper of the same source file (or with a renamed local) keeps its recorded argument:
+                    # entries are matched by (source file, operation, operand with local names blanked)
+                    for (tfn, tkind, tdesc), tv in NAN_TABLE.items():
+                        if tkind == kind and _blank_locals(tdesc) == _blank_locals(desc) and table_file.get(tfn) == b.file:
+                            tk, ent = (tfn, tkind, tdesc), tv
+                            break
                 if ent and ent[1]:
                     cls, why = ent[0], ent[1]
                     used.add(tk)
